@@ -14,11 +14,11 @@
 
    A message [cmsg] carries the fields the pipeline reads, a tag [c_uid] for everything else, and the verdict of
    Filter::matches for every filter of the filter vector (C11 is not repeated here). *)
-From Coq Require Import List NArith Bool Permutation.
+From Coq Require Import List NArith Bool Permutation Sorted.
 From AdltV Require Import Base.Res Base.MachInt Merge.Multi Merge.MultiProofs Filter.Sets Lifecycle.Model
      Convert.Select Convert.SelectProofs Convert.OrderProofs Convert.DetProofs Convert.SortInstance Exec.C14.
 From AdltV Require Dlt.Frame Dlt.Iter Dlt.Write Dlt.WriteProofs Properties.C02.
-From AdltV Require Filter.Match Convert.VerdictProofs Convert.ElabProofs.
+From AdltV Require Filter.Match Convert.VerdictProofs Convert.ElabProofs Convert.PartitionProofs.
 Import ListNotations.
 Open Scope N_scope.
 
@@ -296,6 +296,63 @@ Example C14_filter_verdict_nonvacuous :
     verdicts (re_of nv_rt) fs ([69; 67; 48; 49], Some (64, [65; 80; 48; 49], [67; 51])) = [true; false].
 Proof. eexists. split; [vm_compute; reflexivity|]. vm_compute. auto 10. Qed.
 
+(* ---- which files share a stream (wave 7).  convert() classifies every input file by the SET of ECU ids of the messages
+   inside the first 512 KiB (DltFileInfos::ecus_seen: "the ECU ids within the read_size range") -- the FIRST message
+   included, every later one up to the last one inside the range included, nothing behind the range: *)
+Theorem C14_ecu_set_of_a_file : forall f,
+  (forall x, In x (ecus_seen f) <-> exists m, In m (scanned f) /\ c_ecu m = x) /\
+  (forall m, first_msg f = Some m -> In m (scanned f) /\ In (c_ecu m) (ecus_seen f)) /\
+  scanned f = firstn (f_scan f) (f_msgs f).
+Proof.
+  intros f. split; [intros x; apply PartitionProofs.ecus_seen_spec|]. split; [|reflexivity].
+  intros m H. split; [apply PartitionProofs.first_msg_scanned|apply PartitionProofs.first_msg_ecu_seen]; exact H.
+Qed.
+
+(* ... the streams handed to the merge are exactly the classes of "same ECU set": every stream is not empty, its files
+   are chained in the order of their first reception time, and a named file g (with a message) is in the stream of a
+   file f if and only if the scanned messages of f and g show the same set of ECUs.  So files with equal sets are read
+   one after the other, files with different sets in parallel (merged by reception time: C09). *)
+Theorem C14_streams_by_ecu_set : forall args,
+  DistinctFirst args ->
+  forall s, In s (streams_of args) ->
+    s <> [] /\ StronglySorted (fun a b : sentry => fst a <= fst b) s /\
+    forall t f, In (t, f) s ->
+      forall g m, In g (files_ok args) -> first_msg g = Some m ->
+        (In (c_rt m, g) s <->
+         forall x, (exists y, In y (scanned f) /\ c_ecu y = x) <-> (exists y, In y (scanned g) /\ c_ecu y = x)).
+Proof. exact PartitionProofs.streams_by_scanned_ecus. Qed.
+
+(* ... and when every stream (the chain of its files) is ordered by reception time, so is the merged input, for every
+   tie-break of the heap (C09's clause, for convert's streams) *)
+Theorem C14_input_ordered_if_streams_ordered : forall args its out,
+  all_its (streams_of args) = Ok its ->
+  Forall (sorted_rt c_rt) its ->
+  Merged args out ->
+  sorted_rt c_rt out.
+Proof. exact PartitionProofs.merged_sorted_if_streams_sorted. Qed.
+
+(* non-vacuity: a = ECU 1 at 1, 3, 5 s; b = ECU 2 at 2 s, then ECU 1 at 4, 6 s (its first message is the only one of
+   ECU 2); c = ONE message of ECU 1 at 5.5 s; d = ECU 1 at 1.5, 3.5, 7 s; e = ECU 1 at 2.5, 4.5 s inside the scanned range
+   and ECU 3 at 6.5 s behind it.  a, d, e, c have the set {1} and form one stream in the order of their first messages
+   (although they overlap in time); b has {1, 2} and is a stream of its own. *)
+Definition nv7_files : list file := map mk_file
+  [(0, 3, [(0, 1, 1000000, 0, true, false, []); (1, 1, 3000000, 2000000, true, false, []); (2, 1, 5000000, 4000000, true, false, [])]);
+   (1, 3, [(3, 2, 2000000, 0, true, false, []); (4, 1, 4000000, 3000000, true, false, []); (5, 1, 6000000, 5000000, true, false, [])]);
+   (2, 1, [(6, 1, 5500000, 4500000, true, false, [])]);
+   (3, 3, [(7, 1, 1500000, 500000, true, false, []); (8, 1, 3500000, 2500000, true, false, []); (9, 1, 7000000, 6000000, true, false, [])]);
+   (4, 2, [(10, 1, 2500000, 1500000, true, false, []); (11, 1, 4500000, 3500000, true, false, []); (12, 3, 6500000, 0, true, false, [])])].
+Definition nv7_args : list arg := mk_args nv7_files [Some 2; Some 1; Some 0; Some 4; Some 3].
+Example C14_streams_by_ecu_set_nonvacuous :
+  DistinctFirst nv7_args /\
+  map (map (fun e : sentry => f_path (snd e))) (streams_of nv7_args) = [[0; 3; 4; 2]; [1]] /\
+  map ecus_seen nv7_files = [[1; 1; 1]; [2; 1; 1]; [1]; [1; 1; 1]; [1; 1]].
+Proof.
+  split; [|split; vm_compute; reflexivity].
+  intros f g mf mg Hf Hg Ef Eg Hrt. cbn in Hf, Hg.
+  destruct Hf as [<-|[<-|[<-|[<-|[<-|[]]]]]], Hg as [<-|[<-|[<-|[<-|[<-|[]]]]]]; try reflexivity;
+    vm_compute in Ef, Eg; inversion Ef; inversion Eg; subst; vm_compute in Hrt; discriminate.
+Qed.
+
 Print Assumptions C14_convert_selects_exactly.
 Print Assumptions C14_no_selection_shows_input.
 Print Assumptions C14_written_file_is_selected.
@@ -317,3 +374,7 @@ Print Assumptions C14_filter_verdict_is_criteria.
 Print Assumptions C14_no_ext_header_fails_id_type_level.
 Print Assumptions C14_selection_reads_filter_criteria.
 Print Assumptions C14_filter_verdict_nonvacuous.
+Print Assumptions C14_ecu_set_of_a_file.
+Print Assumptions C14_streams_by_ecu_set.
+Print Assumptions C14_input_ordered_if_streams_ordered.
+Print Assumptions C14_streams_by_ecu_set_nonvacuous.
